@@ -602,6 +602,8 @@ def judge_clim(ctx, idx, op, impl, mi, ms, reason):
         pl, ol = pred.split(","), obs.split(",")
         if len(pl) != len(ol) or any(a != b and b != "none" for a, b in zip(pl, ol)):
             f.append(Finding("correspondence", idx, "future values differ from what the multi-connection model predicts for the observed trace", expected=pred, observed=obs, name="Cm.step <-> connect / send_message / handle on several connections of one client (outcome)"))
+    r = kv(ms)
+    ctx.count("multi_polite_%s" % r.get("polite"))
     regs = [e.split(":")[1] for e in trace if e.startswith("reg:")]
     answers = [a for part in op[2].split(";") for a in part.split(",") if a and a != "-"]
     any_stopped = "1" in stopped
